@@ -9,3 +9,4 @@ import QlibcModel.Props.C02
 #print axioms Qlibc.Props.C02.find_cost
 #print axioms Qlibc.Shapes.Tree.widths_as_modelled
 #print axioms Qlibc.Shapes.Tree.no_hidden_static_state
+#print axioms Qlibc.Shapes.Tree.asserts_side_effect_free
